@@ -170,6 +170,7 @@ func cmdCheck(args []string) int {
 	}
 	var newBaseline []string
 	replays := 0
+	boundedRuns := 0
 	const maxReplays = 6
 	for _, g := range groups {
 		solverSecs += g.Seconds
@@ -185,6 +186,29 @@ func cmdCheck(args []string) int {
 			}
 		}
 		if isStale && g.Status != "discharged" {
+			// the contract no longer binds to the (changed) code: for functions over
+			// plain data the clause is checked on the real code over an enumerated
+			// input space instead (bounded stand-in, never counted as a proof)
+			if g.Class == "POST" && !*update && boundedRuns < 6 {
+				if rep := tryBoundedCheck(L, id, g); rep != nil {
+					boundedRuns++
+					if rep.Reproduced {
+						total++
+						o := g.firstFailing()
+						if o == nil {
+							o = g.Instances[0]
+						}
+						path := writeReplayFile(id, o, rep, "contract stale for this function (its loop invariants name locals that no longer exist); the clause was checked on the real code over an enumerated input space")
+						fmt.Printf("FAILED %s (%s) at %s: %s\n", g.Name, g.Class, o.Pos, o.Info)
+						fmt.Printf("  replay: %s\n", rep.Summary)
+						fmt.Printf("VIOLATION property=%s replay=%s\n", id, path)
+						violations++
+						continue
+					}
+					stale = append(stale, g.Name+" ["+rep.Summary+"]")
+					continue
+				}
+			}
 			stale = append(stale, g.Name)
 			continue
 		}
